@@ -18,7 +18,7 @@ FNS = ["helper", "compute", "render", "fetch", "apply_it", "resolve"]
 MODS = ["alpha", "beta", "gamma", "delta", "kappa", "lambd"]
 SUBS = ["sub", "inner", "deep"]
 ATTRS = [("x", "int", "5"), ("name", "str", '"n"'), ("flag", "bool", "True"), ("ratio", "float", "0.5"),
-         ("count", "int", "-3"), ("title", "str", '"t"')]
+         ("count", "int", "-3"), ("title", "str", '"t"'), ("maybe", "Optional[str]", "None"), ("tags", "List[str]", "None")]
 
 
 def gen_class(rng, name):
@@ -56,7 +56,7 @@ def gen_package(rng, root, top, outer):
             if not mods:
                 break
             m = mods.pop()
-            src = '"""%s module"""\n\n' % m
+            src = '"""%s module"""\n\nfrom typing import List, Optional\n\n' % m
             syms = []
             for _k in range(rng.randint(1, 2)):
                 if rng.random() < 0.6 and cls:
@@ -81,7 +81,11 @@ def gen_package(rng, root, top, outer):
             sub_exports = make(pkg_fqn + "." + sub, os.path.join(pkg_dir, sub), depth + 1)
             modules.append((pkg_fqn + "." + sub, "package", [s for _, ss in sub_exports for s in ss]))
             if rng.random() < 0.7:
-                exports += sub_exports
+                # re-export either from the sub-package's modules or THROUGH the sub-package (its __init__ is then the source file)
+                if rng.random() < 0.5:
+                    exports += sub_exports
+                else:
+                    exports += [(pkg_fqn + "." + sub, [s_ for _m, ss in sub_exports for s_ in ss])]
         init = '"""%s"""\n\n' % pkg_fqn.rsplit(".", 1)[-1]
         names = []
         for mf, syms in exports:
